@@ -1,6 +1,6 @@
 Require Import WS.Base.Bytes WS.Base.Tape.
 Require WS.Cases.C13 WS.Cases.C03 WS.Cases.C04 WS.Cases.C05 WS.Cases.C06 WS.Cases.C08 WS.Cases.C17 WS.Cases.C07r.
-Require WS.Cases.C02 WS.Cases.C10 WS.Cases.C20 WS.Cases.C12 WS.Cases.C14 WS.Cases.C15 WS.Cases.C01 WS.Cases.C09 WS.Cases.C19 WS.Cases.C16 WS.Cases.C18 WS.Cases.C07x WS.Cases.C09w WS.Cases.C15r WS.Cases.C03j WS.Cases.C02m WS.Cases.C14k WS.Cases.C01j WS.Cases.C03k.
+Require WS.Cases.C02 WS.Cases.C10 WS.Cases.C20 WS.Cases.C12 WS.Cases.C14 WS.Cases.C15 WS.Cases.C01 WS.Cases.C09 WS.Cases.C19 WS.Cases.C16 WS.Cases.C18 WS.Cases.C07x WS.Cases.C09w WS.Cases.C15r WS.Cases.C03j WS.Cases.C02m WS.Cases.C14k WS.Cases.C01j WS.Cases.C03k WS.Cases.C03e.
 
 Definition judge_any (kind:N) (t:tape) : tape :=
   match kind with
@@ -32,5 +32,6 @@ Definition judge_any (kind:N) (t:tape) : tape :=
   | 26 => C14k.judge t
   | 27 => C01j.judge t
   | 28 => C03k.judge t
+  | 29 => C03e.judge t
   | _ => v_badtape
   end.
